@@ -799,7 +799,7 @@ def run(tier, seed, replay=None):
             for f in sorted(corpus.glob("*.json")):
                 scenes.append(json.loads(f.read_text())["case"])
         n_nar = 170 if tier == "quick" else 2000
-        per_fn = 24 if tier == "quick" else 260
+        per_fn = 16 if tier == "quick" else 220
         if cm.os.environ.get("C12_SCENES"):            # development aid only
             n_nar, per_fn = (int(x) for x in cm.os.environ["C12_SCENES"].split(","))
         for _ in range(n_nar):
@@ -845,7 +845,11 @@ def run(tier, seed, replay=None):
             all_fails.append((sc, f))
     timing["collider_judging"] = round(cm.time.time() - t_ph, 1)
     t_ph = cm.time.time()
-    # membership fallbacks: one coqc batch with the proven checker
+    # membership fallbacks: one coqc batch with the proven checker (quick tier: a seeded sample of at most 140, to keep
+    # the wall time; the thorough tier evaluates all of them)
+    if tier == "quick" and len(member_queue) > 140:
+        T.hit("member_not_sampled_in_quick_tier", len(member_queue) - 140)
+        member_queue = R.rng.sample(member_queue, 140)
     if member_queue:
         exprs = []
         for (sc, text, spec, pt, tau, info) in member_queue:
